@@ -132,6 +132,11 @@ def class_attr(I, st, cname, attr, ctx):
 
 def cls_getattr(I, st, cv, attr, ctx):
     name = cv.name
+    hk = I.lib.get("$class_attr")
+    if hk is not None:
+        r = hk(I, st, cv, attr, ctx)
+        if r is not None:
+            return r
     if I.src.module_of_class(name) is not None:
         found = I.src.find_method(name, attr)
         if found is not None:
